@@ -20,7 +20,9 @@ AS_IS_DEV = []   # NoProxyCarryGthread: fixed in /repo (707c9ca)
 HDR = {"proto_s": ("X-Forwarded-Proto", "https"), "proto_i": ("X-Forwarded-Proto", "http"),
        "ssl_s": ("X-Forwarded-Ssl", "on"), "ssl_i": ("X-Forwarded-Ssl", "off"),
        "proto_us": ("X_Forwarded_Proto", "HTTPS-us"), "sn": ("SCRIPT_NAME", "/app"), "sn_h": ("Script-Name", "/app/x"),
-       "pi": ("PATH_INFO", "/evil"), "cu": ("X_Custom", "cu"), "ch": ("X-Custom", "ch"), "plain": ("Accept", "pl")}
+       "pi": ("PATH_INFO", "/evil"), "cu": ("X_Custom", "cu"), "ch": ("X-Custom", "ch"), "cdot": ("X.Custom", "cd"),
+       "plain": ("Accept", "pl")}
+TOKEN_SEPS = ".~!+#$%&'*^`|"
 PEER = {"listed": ("10.0.0.1", 5555), "unlisted": ("10.9.9.9", 5555), "unix": ""}
 # the same abstract peers over IPv6 (accept() returns a 4-tuple there)
 PEER6 = {"listed": ("2001:db8::1", 5555, 0, 0), "unlisted": ("2001:db8::9", 5555, 0, 0), "unix": ""}
@@ -44,7 +46,10 @@ def randcase(s, rng):
 
 
 def observe(case, rng):
-    kw = {"forwarded_allow_ips": ALLOW[case["fa"]], "header_map": case["hm"], "proxy_protocol": bool(case["pp"]),
+    fa = ALLOW[case["fa"]]
+    if case.get("decl") and fa != "*":
+        fa = (fa + "," if fa else "") + "1.2.3.4"      # the address the PROXY line declares
+    kw = {"forwarded_allow_ips": fa, "header_map": case["hm"], "proxy_protocol": bool(case["pp"]),
           "proxy_allow_ips": ALLOW[case["pa"]], "keepalive": 5}
     if case["fh"] != "default":
         kw["forwarder_headers"] = "" if case["fh"] == "empty" else "*"
@@ -63,7 +68,9 @@ def observe(case, rng):
         n, v = HDR[h]
         if "_" not in n and h != "sn_h":
             n = randcase(n, rng)
-        if h in ("cu", "ch", "plain", "pi"):
+        if h == "cdot":
+            n = n.replace(".", rng.choice(TOKEN_SEPS))
+        if h in ("cu", "ch", "cdot", "plain", "pi"):
             v = "%s%d" % (v, i)
         lines.append((n, v))
     hdrs = "".join("%s: %s\r\n" % (n, v) for n, v in lines).encode("latin-1")
@@ -129,6 +136,10 @@ def c08(ctx):
     tlc.write_cfg(cfg, spec="Spec", constants={"Dev": {"NoProxyCarryGthread"}, "Product": "A"}, invariants=["DesignSatisfiesEnvelope"])
     rr = tlc.run("HeaderMap", cfg, name="HeaderMap_dev", workers=4, timeout=600)
     ctx.coverage["deviation_runs"] = [{"dev": "NoProxyCarryGthread", "reproduced": not rr.ok}]
+    cfg = os.path.join(OUT, "cfg", "HeaderMap_dev2.cfg")
+    tlc.write_cfg(cfg, spec="Spec", constants={"Dev": {"TrustDeclaredAddr"}, "Product": "A"}, invariants=["DesignSatisfiesEnvelope"])
+    rr = tlc.run("HeaderMap", cfg, name="HeaderMap_dev2", workers=4, timeout=600)
+    ctx.coverage["deviation_runs"].append({"dev": "TrustDeclaredAddr", "reproduced": not rr.ok})
     cases = emit("A")
     cb = emit("B")
     if ctx.quick:
